@@ -45,10 +45,10 @@ CFG = {
                   "(the recursive render without the root window), zorder_is_spec, render_clip, render_last_wins, paint_structure, child_window_clip. "
                   "Round 3: src_guards_strict now also states that each Text/RichText draw function allocates NewSurface(size.Width, size.Height) (interpreted arguments), "
                   "facts_ellipsis_cond. Witness/F39-F42, F114 prove that the uint16 / non-strict / un-clipped variants (the code before the fixes) fail. "
-                  "ROUND 4: Props.C14Body (22 theorems) - the bodies of NewSurface, NewSubSurface, AddChild, WriteCell, Fill, HasUnboundedWidth/Height, Surface.render, Center.Draw, "
-                  "Text/RichText findContainerSize (soft and hard) and Text/RichText drawSoftwrap, REGENERATED from the source each run (Gen/SurfaceBodies) and EXECUTED by the statement "
+                  "ROUND 4: Props.C14Body (27 theorems) - the bodies of NewSurface, NewSubSurface, AddChild, WriteCell, Fill, HasUnboundedWidth/Height, Surface.render, Center.Draw, "
+                  "Text/RichText findContainerSize (soft and hard), Text/RichText drawSoftwrap and Text/RichText Draw (hard wrap, with the ellipsis branch), REGENERATED from the source each run (Gen/SurfaceBodies) and EXECUTED by the statement "
                   "interpreter Model/SurfExec, equal the hand-written model for all inputs (*_body_eq_model; render with the recursive calls being the model - the model is the fixed point of the "
-                  "body - and with the receiver's Children left sorted IN PLACE); composed: the executed drawSoftwrap = Layout.drawText in the soft-wrap mode of the source. "
+                  "body - and with the receiver's Children left sorted IN PLACE); composed: the executed drawSoftwrap / Draw = Layout.drawText in the soft- / hard-wrap mode of the source. "
                   "Props.C14Bounds: paint_is_painters_algorithm (every own cell, none skipped, then the children SORTED by ZIndex, each in its window), own_cells_all_painted, sorted_children, "
                   "later_call_covers (a later call decides the cell, blank or not); the uint16 boundaries of every size computation for all constraints: size_height_exact (Height += 1 never wraps), "
                   "line_width_mod / line_width_exact (uint16 line width = true width mod 65536), center_offset / center_offset_fits, dynamic_child_width. Witness.C14Paint: skipping blank cells, "
@@ -56,7 +56,7 @@ CFG = {
     "level_note": "Round 4 tie: Gen/SurfaceBodies.lean (go/ast -> tree syntax of Model/SurfLang, statement by statement; unknown shapes degrade to .unknown, bodies_fully_recognised) is EXECUTED by "
                   "Model/SurfExec in the body_eq_model theorems: a rewrite of those bodies that keeps the meaning keeps the theorems (self-test H1: five bodies rewritten at once), one that changes it "
                   "fails the theorem of that function (seeded C14-m3: centerDraw_body_eq). The syntactic pins of these functions were removed (facts_surface keeps TextField only; C14Facts keeps Button, "
-                  "TextField, the hard-wrap Draw loops, hardLines, App.Run's frame clause). Limits: loop proofs name variables by position (a rewrite that adds or removes a local breaks the SCRIPT, not the "
+                  "TextField, hardLines, App.Run's frame clause). Limits: loop proofs name variables by position (a rewrite that adds or removes a local breaks the SCRIPT, not the "
                   "statement); calls of NewSurface/AddChild/WriteCell/Fill inside other bodies are the model functions (each proved equal to its own body); scanners, Characters, the child's Draw and "
                   "recursive render are parameters of the interpreter. Tie (rounds 1-3): Gen/SurfaceFacts.lean regenerated each run. Used by the model: int vs uint16 length and index, >= vs > guards, which window App.Run "
                   "renders into (renderRoot), which widgets have the bounded-constraint panic, the size arguments of every NewSurface call incl. the four Text/RichText "
